@@ -221,6 +221,7 @@ def verify_functions(prop, rep, extra_requires=None, only=None):
             if not only:
                 rep.functions.append(seg)
             rep.trusted |= E.trusted_used
+            rep.hinted = getattr(rep, "hinted", set()) | set(E.lemmas_used)
             all_vcs.extend(vcs)
         finally:
             c.requires = saved
@@ -614,6 +615,19 @@ def lean_check(rep):
     rep.lean_seconds = round(time.time() - t0, 1)
 
 
+def axioms_used(vcs, hinted=()):
+    """every assumed (never proved) fact that was available to at least one obligation of this run"""
+    names = set(hinted)
+    for v in vcs:
+        names |= set(getattr(v, "uses", ()) or ())
+    out = []
+    for n in sorted(names):
+        l = registry.LEMMAS.get(n)
+        if l is not None and l.assumed:
+            out.append("axiom %s: %s" % (n, (l.note or str(l.formula))[:300]))
+    return out
+
+
 def write_evidence(rep, code):
     from contracts import PROPS
     pinfo = PROPS.get(rep.prop, {})
@@ -675,7 +689,7 @@ def write_evidence(rep, code):
                     "not filtered); where obligations exist the deciding step is `obligations == discharged`",
             "exhaustive": False,
         },
-        "assumptions": pinfo.get("assumptions", []) + ["trusted: " + t for t in sorted(rep.trusted)],
+        "assumptions": pinfo.get("assumptions", []) + ["trusted: " + t for t in sorted(rep.trusted)] + axioms_used(allv, getattr(rep, "hinted", ())),
         "wall_s": round(time.time() - rep.t0, 2),
         "violations": len(rep.violations),
         "exit_code": code,
